@@ -4,7 +4,7 @@ C03 — model of the descriptor-event layer of the event loop (both back-ends):
   modules/event/engines/select/{loop.cpp,fd_event.cpp,types.h}
   modules/base/object_pool.hpp   (LIFO free list of record blocks)
 
-The model follows the REPAIRED code (patches/C03-01 … C03-04); the dispatch of the code as it
+The model follows the REPAIRED code (patches/C03-01 … C03-06); the dispatch of the code as it
 was found is in `AsFound.lean` (same state, same API functions, only the dispatch differs).
 
 * an event object (`EpollFdEvent`/`SelectFdEvent`) is `Ev`; `inited = false` stands for
@@ -23,8 +23,16 @@ was found is in `AsFound.lean` (same state, same API functions, only the dispatc
   order of the ready list (`validReady`);
 * user callbacks are scripts (lists of API calls) carried by the event, so calls made from
   inside callbacks are ordinary model steps;
-* a descriptor `f` is a harness slot; `gen f` counts how often it was closed and reopened
-  under the same number, `readable/writable` is the actual readiness the harness set up.
+* a descriptor `f` is a harness slot; `gen f` counts how often it was closed (and reopened
+  under the same number), `isOpen f` whether the number currently names an open file,
+  `readable/writable/urgent` the actual readiness the harness set up (`urgent` = out-of-band data
+  pending: the except condition of both back-ends after patch 06);
+* a descriptor may be closed while event objects still refer to it: the kernel drops it from the
+  epoll set silently (`kern f := 0`, later `EPOLL_CTL_ADD` fails while it stays closed), `select`
+  fails with EBADF and the loop runs `removeInvalidFds` instead of a dispatch (`Step.badfPass`);
+  the ghost flag `breach` records that this happened — only the theorem "a callback is on the
+  same open file the kernel reported on" needs it clear;
+* the pool keeps at most `poolKeep` = 64 parked blocks.
 -/
 namespace Tbox.C03
 
@@ -40,6 +48,8 @@ inductive Act where
   | close (f : Nat)                          -- close(f) and reopen a fresh socket under the same number
   | setR (f : Nat) (b : Bool)                -- make f readable / drain it
   | setW (f : Nat) (b : Bool)                -- make f writable / fill its send buffer
+  | oob (f : Nat)                            -- the peer sends one byte of out-of-band data (except condition)
+  | kill (f : Nat)                           -- close(f), the number stays unused until a later `close f` reopens it
 deriving DecidableEq, Repr
 
 structure Ev where
@@ -70,6 +80,7 @@ inductive Bad where
   | deadEvent        -- a destroyed event object is dereferenced
   | raise            -- an exception leaves the loop
   | eraseEnd         -- vector::erase(end())
+  | pastEnd          -- a vector is read past its end()
 deriving Repr, DecidableEq
 
 /-- one callback invocation with what was true at that moment (ghost flags) -/
@@ -100,6 +111,9 @@ structure State where
   gen      : Nat → Nat := fun _ => 0
   readable : Nat → Bool := fun _ => false
   writable : Nat → Bool := fun _ => true
+  urgent   : Nat → Bool := fun _ => false   -- out-of-band data pending (select: exceptfds, epoll: EPOLLPRI)
+  isOpen   : Nat → Bool := fun _ => true    -- the descriptor number currently names an open file
+  breach   : Bool := false                  -- ghost: some descriptor was closed while an event object still referred to it
   serial   : Nat := 0
   freeList : List Nat := []       -- parked pool blocks, head = next to be reused
   nBlocks  : Nat := 0
@@ -122,14 +136,14 @@ def maskOf (r : Rec) : Nat :=
   (if r.rd > 0 then 1 else 0) + (if r.wr > 0 then 2 else 0) + (if r.ex > 0 then 4 else 0)
 
 /-- `EpollFdEvent::reloadEpoll` on record `r` of descriptor `f` -/
-def reload (k : Nat → Nat) (f : Nat) (r : Rec) : (Nat → Nat) × Rec :=
+def reload (k : Nat → Nat) (op : Bool) (f : Nat) (r : Rec) : (Nat → Nat) × Rec :=
   let new := maskOf r
   let r' := { r with kev := new }
   if r.kev = 0 then
-    (if new ≠ 0 then (if k f ≠ 0 then k else upd k f new) else k, r')     -- EPOLL_CTL_ADD (EEXIST ignored)
+    (if new ≠ 0 then (if k f ≠ 0 || !op then k else upd k f new) else k, r')   -- EPOLL_CTL_ADD (EEXIST, EBADF ignored)
   else if new ≠ 0 then
-    (if k f = 0 then k else upd k f new, r')                              -- EPOLL_CTL_MOD (ENOENT ignored)
-  else (upd k f 0, r')                                                    -- EPOLL_CTL_DEL
+    (if k f = 0 then k else upd k f new, r')                               -- EPOLL_CTL_MOD (ENOENT ignored; a closed descriptor is never registered)
+  else (upd k f 0, r')                                                     -- EPOLL_CTL_DEL (a closed descriptor is not registered anyway)
 
 /-- `ObjectPool::alloc`: the most recently parked block, else a fresh one -/
 def popBlock (s : State) : State × Nat :=
@@ -137,8 +151,13 @@ def popBlock (s : State) : State × Nat :=
   | b :: rest => ({ s with freeList := rest }, b)
   | [] => ({ s with nBlocks := s.nBlocks + 1 }, s.nBlocks)
 
-/-- `ObjectPool::free`: the block is parked at the head of the free list -/
-def pushBlock (s : State) (b : Nat) : State := { s with freeList := b :: s.freeList }
+/-- the pool keeps at most this many parked blocks (`fd_shared_data_pool_{64}`) -/
+def poolKeep : Nat := 64
+
+/-- `ObjectPool::free`: the block is parked at the head of the free list, or handed back to the heap
+when `poolKeep` blocks are parked already -/
+def pushBlock (s : State) (b : Nat) : State :=
+  { s with freeList := if s.freeList.length < poolKeep then b :: s.freeList else s.freeList }
 
 /-- `refFdSharedData(f)` on behalf of event `e` -/
 def refFd (s : State) (f e : Nat) : State :=
@@ -184,7 +203,7 @@ def enableEv (s : State) (e : Nat) : State × Bool :=
     | some r =>
       let r1 := { r with rd := inc r.rd v.mask 1, wr := inc r.wr v.mask 2, ex := inc r.ex v.mask 4,
                          subs := r.subs ++ [e] }
-      let (k, r2) := reload s.kern v.fd r1
+      let (k, r2) := reload s.kern (s.isOpen v.fd) v.fd r1
       (({ s with kern := k }.setRec v.fd (some r2)).setEv e { v with enabled := true }, true)
 
 def disableEv (s : State) (e : Nat) : State × Bool :=
@@ -198,7 +217,7 @@ def disableEv (s : State) (e : Nat) : State × Bool :=
       else
         let r1 := { r with rd := dec r.rd v.mask 1, wr := dec r.wr v.mask 2, ex := dec r.ex v.mask 4,
                            subs := r.subs.erase e }
-        let (k, r2) := reload s.kern v.fd r1
+        let (k, r2) := reload s.kern (s.isOpen v.fd) v.fd r1
         (({ s with kern := k }.setRec v.fd (some r2)).setEv e { v with enabled := false }, true)
 
 /-- `~FdEvent`: disable, drop the reference, the object is gone -/
@@ -209,21 +228,36 @@ def destroyEv (s : State) (e : Nat) : State × Bool :=
     let s2 := if (s1.evs e).inited then detach s1 e else s1
     (s2.setEv e { s2.evs e with alive := false }, true)
 
-/-- harness contract: a descriptor is closed only when no event object refers to it any more -/
-def closeFd (s : State) (f : Nat) : State × Bool :=
-  if (s.recs f).isSome then (s, false)
+/-- `close(f)`; with `reopen` a fresh socket pair is opened under the same number at once.  The kernel
+drops a closed file from the epoll set.  Closing a descriptor to which an event object still refers,
+or leaving a descriptor number closed, is recorded in the ghost flag `breach` (the loop cannot know about it). -/
+def closeFd (s : State) (f : Nat) (reopen : Bool) : State × Bool :=
+  if !reopen && !s.isOpen f then (s, false)
   else ({ s with gen := upd s.gen f (s.gen f + 1), kern := upd s.kern f 0,
                  readable := fun i => if i = f then false else s.readable i,
-                 writable := fun i => if i = f then true else s.writable i }, true)
+                 writable := fun i => if i = f then reopen else s.writable i,
+                 urgent := fun i => if i = f then false else s.urgent i,
+                 isOpen := fun i => if i = f then reopen else s.isOpen i,
+                 breach := s.breach || (s.recs f).isSome || !reopen }, true)
+
+/-- readiness set up by the harness through the peer end; nothing happens on a closed descriptor.
+Draining (`rd = some false`) also discards pending out-of-band data (Linux AF_UNIX). -/
+def setReady (s : State) (f : Nat) (rd wr : Option Bool) (ob : Bool) : State × Bool :=
+  if !s.isOpen f then (s, true)
+  else ({ s with readable := fun i => if i = f then (rd.getD (s.readable f) || ob) else s.readable i,
+                 writable := fun i => if i = f then wr.getD (s.writable f) else s.writable i,
+                 urgent := fun i => if i = f then (ob || (s.urgent f && rd != some false)) else s.urgent i }, true)
 
 def act (s : State) : Act → State × Bool
   | .init e f m o => initEv s e f m o
   | .enable e => enableEv s e
   | .disable e => disableEv s e
   | .destroy e => destroyEv s e
-  | .close f => closeFd s f
-  | .setR f b => ({ s with readable := fun i => if i = f then b else s.readable i }, true)
-  | .setW f b => ({ s with writable := fun i => if i = f then b else s.writable i }, true)
+  | .close f => closeFd s f true
+  | .kill f => closeFd s f false
+  | .setR f b => setReady s f (some b) none false
+  | .setW f b => setReady s f none (some b) false
+  | .oob f => setReady s f none none true
 
 def runScript (s : State) : List Act → State
   | [] => s
@@ -283,7 +317,9 @@ def pass (s : State) (ready : List (Nat × Nat)) : State :=
   ready.foldl (dispatchFd (waitOf s ready)) s
 
 def actualMask (s : State) (f : Nat) : Nat :=
-  (if s.readable f then 1 else 0) + (if s.writable f then 2 else 0)
+  if s.isOpen f then
+    (if s.readable f then 1 else 0) + (if s.writable f then 2 else 0) + (if s.urgent f then 4 else 0)
+  else 0
 
 /-- what the back-end asks the kernel to watch on `f` at wait time -/
 def interest (be : Backend) (s : State) (f : Nat) : Nat :=
@@ -308,25 +344,66 @@ inductive Step where
   | newEv (script : List Act)          -- loop->newFdEvent() + setCallback(script)
   | api (a : Act)                      -- API call made outside any callback
   | pass (be : Backend) (ready : List (Nat × Nat))
+  | badfPass (fds : List Nat)          -- select returned EBADF: `removeInvalidFds` (the closed descriptors with a record)
 deriving Repr
 
 /-- deleting an event from inside its own callback is outside the property (the code asserts it) -/
 def noSelfDestroy (e : Nat) (sc : List Act) : Bool := sc.all (fun a => a != .destroy e)
 
+/-- `SelectLoop::removeInvalidFds` (patch 05: over a copy of the subscriber vector): every event
+subscribed on a descriptor that is no longer open is disabled -/
+def removeInvalid (s : State) (fds : List Nat) : State :=
+  fds.foldl (fun s f => match s.recs f with
+    | none => s
+    | some r => r.subs.foldl (fun s e => (disableEv s e).1) s) s
+
+/-- select fails with EBADF iff a closed descriptor is in its sets -/
+def badfTrigger (s : State) (fds : List Nat) : Bool :=
+  fds.any (fun f => !s.isOpen f && interest .select s f != 0)
+
 def valid (s : State) : Step → Bool
   | .newEv sc => noSelfDestroy s.nEv sc
   | .api _ => true
   | .pass be r => validReady be s r
+  | .badfPass fds => badfTrigger s fds && fds.all (fun f => !s.isOpen f)
 
 def step (s : State) : Step → State
   | .newEv sc => { s.setEv s.nEv { alive := true, script := sc } with nEv := s.nEv + 1 }
   | .api a => (act s a).1
   | .pass _ r => pass s r
+  | .badfPass fds => removeInvalid s fds
 
 def exec (s : State) : List Step → Option State
   | [] => some s
   | st :: sts => if valid s st then exec (step s st) sts else none
 
 def init : State := {}
+
+/-- the callbacks made so far, newest first: (event, readiness mask handed over) -/
+def cbKeys (s : State) : List (Nat × Nat) :=
+  s.log.filterMap fun o => match o with | .cb c => some (c.e, c.m) | _ => none
+
+/-- what a callback of a subscriber of descriptor `f` may do under the order-independence criterion:
+enable or disable events that are initialised on the same descriptor `f` (itself included), and change
+the readiness of any descriptor through its peer (the dispatch never looks at actual readiness) -/
+def localAct (s : State) (f : Nat) : Act → Bool
+  | .enable e => (s.evs e).alive && (s.evs e).inited && (s.evs e).fd == f
+  | .disable e => (s.evs e).alive && (s.evs e).inited && (s.evs e).fd == f
+  | .setR _ _ => true
+  | .setW _ _ => true
+  | .oob _ => true
+  | _ => false
+
+/-- every subscriber of descriptor `f` has a script of local actions only -/
+def localFd (s : State) (f : Nat) : Bool :=
+  match s.recs f with
+  | none => true
+  | some rc => rc.subs.all fun e => (s.evs e).script.all (localAct s f)
+
+/-- **the criterion** (decidable): the ready descriptors are distinct and no script of an event
+subscribed to a ready descriptor touches events of another descriptor, (re-)initialises, destroys or
+closes anything -/
+def OrderIndepSyn (s : State) (r : List (Nat × Nat)) : Bool :=
+  decide (r.map (·.1)).Nodup && r.all fun fm => localFd s fm.1
 
 end Tbox.C03
